@@ -51,27 +51,24 @@ theorem piecewise_sound (a : Asg) (x y : Var) (ranges : List (Rat × Rat)) (cons
       a y = constants[i]'(hlen ▸ hi) :=
   FP.piecewise_sound a x y ranges constants name hlen hLU h
 
-/-- **piecewise constant, completeness (partial).** If `x` lies in range `j`, `y` is its constant and
-*every other constant is within the big-M of it*, the one-hot assignment satisfies the fragment.
-The last hypothesis is forced by the code's `M = 2(max U − min L)`, which ignores the constants;
-`piecewise_bigM_witness` shows it cannot be dropped. -/
-theorem piecewise_complete_partial (a : Asg) (x y : Var) (ranges : List (Rat × Rat))
+/-- **piecewise constant, completeness.** If `x` lies in range `j` and `y` is that range's
+constant, the one-hot assignment satisfies the fragment — for *all* constants (since fix 445f2b7 the
+rows linking `y` use the spread of the constants as their big-M). -/
+theorem piecewise_complete (a : Asg) (x y : Var) (ranges : List (Rat × Rat))
     (constants : List Rat) (name : String) (hlen : ranges.length = constants.length)
     (hLU : ∀ r ∈ ranges, r.1 ≤ r.2) (j : Nat) (hj : j < ranges.length)
     (hx : (ranges[j]).1 ≤ a x ∧ a x ≤ (ranges[j]).2) (hy : a y = constants[j]'(hlen ▸ hj))
-    (hM : ∀ i, ∀ hi : i < constants.length,
-        constants[i] - bigM ranges ≤ a y ∧ a y ≤ constants[i] + bigM ranges)
     (hfresh : ∀ i, zVar name i ≠ x ∧ zVar name i ≠ y) :
     ∃ a' : Asg, (∀ v, (∀ i, v ≠ zVar name i) → a' v = a v) ∧
       Sat a' (piecewise x y ranges constants name) :=
-  FP.piecewise_complete_partial a x y ranges constants name hlen hLU j hj hx hy hM hfresh
+  FP.piecewise_complete a x y ranges constants name hlen hLU j hj hx hy hfresh
 
-/-- the documented contract (x in a range ⇒ y = its constant is admissible) fails for constants
-further apart than the big-M: ranges `[(0,1),(2,3)]`, constants `[0,100]`, `x = 1/2` is infeasible. -/
-theorem piecewise_bigM_witness :
-    ¬ ∃ a : Asg, a (.nm "x" "") = 1/2 ∧
-      Sat a (piecewise (.nm "x" "") (.nm "y" "") [(0,1),(2,3)] [0,100] "f") :=
-  FP.piecewise_bigM_witness
+/-- non-vacuity / regression witness: the instance that was infeasible before the fix (ranges
+`[(0,1),(2,3)]`, constants `[0,100]`, `x = 1/2`) now has a satisfying assignment with `y = 0` -/
+theorem piecewise_far_constants_feasible :
+    ∃ a : Asg, a (.ix "x" 0) = 1/2 ∧ a (.ix "y" 0) = 0 ∧
+      Sat a (piecewise (.ix "x" 0) (.ix "y" 0) [(0,1),(2,3)] [0,100] "f") :=
+  FP.piecewise_far_constants_feasible
 
 /-! ### queued bound changes, objective replacement -/
 
